@@ -373,9 +373,11 @@ func writeRuleHash(state *core.BuildState, target *core.BuildTarget) error {
 func removeRuleHash(target *core.BuildTarget) {
 	outputs := target.FullOutputs()
 	if len(outputs) == 0 {
+		verifOp(target, "unstamp-fallback", filepath.Join(target.OutDir(), target.Label.Name))
 		fs.RemoveAttr(filepath.Join(target.OutDir(), target.Label.Name), xattrName)
 	}
 	for _, output := range outputs {
+		verifOp(target, "unstamp-out", output)
 		fs.RemoveAttr(output, xattrName)
 	}
 }
